@@ -28,7 +28,9 @@ TotalFails(e) ==
 Fails(e) ==
     CASE e.op = "sbf" -> SupplyFails(e)
       [] e.op = "sbf_equiv" -> SbfEquivFails(e)
+      [] e.op = "sbf_points" -> SbfPointsFails(e)
       [] e.op = "eta" -> EtaFails(e)
+      [] e.op = "eta_points" -> EtaPointsFails(e)
       [] e.op = "jit_compose" -> JitComposeFails(e)
       [] e.op = "steps" -> StepsFails(e)
       [] e.op = "poisson" -> PoissonFails(e)
